@@ -1,4 +1,5 @@
-/* Domain E: the error query.  Case:  E <heapsize> <rot> <code> <hextext|N>
+/* Domain E: the error query.  Case:  E <heapsize> <rot> <code> <hextext|N> [x<explicit length>]
+ * (without the last token the text is pushed with automatic length, with it through the explicit-length argument)
  * A text of `rot` bytes and a one-letter text are pushed, the first is queried (freed: the front of a
  * static heap becomes free while its write position stays), then (code, text) is pushed, the one-letter text queried and then
  * SYSTem:ERRor[:NEXT]? is run for (code, text), which in the static-heap build may wrap around the heap end.
@@ -8,8 +9,8 @@
 static const scpi_command_t no_cmds[] = { SCPI_CMD_LIST_END };
 
 void run_errstr(const char *input) {
-    unsigned hs, rot; int code; static char hex[4096]; static unsigned char text[2048]; size_t tl; h_env_t e; char *info;
-    if (sscanf(input, "E %u %u %d %4095s", &hs, &rot, &code, hex) != 4) return;
+    unsigned hs, rot; int code; static char hex[4096]; static unsigned char text[2048]; size_t tl; h_env_t e; char *info; unsigned long xl = 0;
+    if (sscanf(input, "E %u %u %d %4095s x%lu", &hs, &rot, &code, hex, &xl) < 4) return;
     h_set_case("%s", input);
     h_env_init(&e, no_cmds, 16, 4, hs);
     if (rot) {
@@ -20,7 +21,7 @@ void run_errstr(const char *input) {
     }
     tl = h_unhex(hex, text, sizeof text - 1);
     info = (char *) malloc(tl + 1); memcpy(info, text, tl); info[tl] = 0;       /* exact size */
-    SCPI_ErrorPushEx(&e.ctx, (int16_t) code, hex[0] == 'N' ? NULL : info, 0);
+    SCPI_ErrorPushEx(&e.ctx, (int16_t) code, hex[0] == 'N' ? NULL : info, (size_t) xl);
     free(info);
     if (rot) { e.ctx.output_count = 0; SCPI_SystemErrorNextQ(&e.ctx); }        /* the one-letter text */
     h_env_clear_capture(&e);
@@ -37,6 +38,13 @@ static void emit(unsigned hs, unsigned rot, int code, const unsigned char *t, si
     if (isnull) in[k++] = 'N'; else if (!n) in[k++] = '-';
     else for (i = 0; i < n; i++) k += (size_t) sprintf(in + k, "%02x", t[i]);
     in[k] = 0;
+    /* a quarter of the texts go through the explicit-length argument: the exact length, one less, or a length around and
+     * beyond 255 / 256 / 512 / 65536 (the text ends at its NUL whatever the length says) */
+    if (!isnull && n && h_chance(25)) {
+        static const unsigned long xs[] = {255, 256, 257, 300, 511, 512, 513, 1000, 65535, 65536, 65537, 100000};
+        unsigned long xl = h_chance(40) ? (unsigned long) n : h_chance(30) ? (unsigned long) n - 1 + (n == 1) : h_chance(50) ? (unsigned long) n + 1 + h_below(300) : xs[h_below(12)];
+        sprintf(in + k, " x%lu", xl);
+    }
     if (h_mine_str(in)) run_errstr(in);
 }
 
